@@ -10,6 +10,7 @@ import (
 	"go/token"
 	"go/types"
 	"math/bits"
+	"unicode"
 
 	"golang.org/x/tools/go/ssa"
 )
@@ -264,6 +265,14 @@ func init() {
 		"fmt.Sprintln": func(fr *frame, a []value) value {
 			return fr.i.sprintArgs(a[0].([]value), true)
 		},
+		"unicode.SimpleFold": func(fr *frame, a []value) value { return unicode.SimpleFold(fr.i.conc(a[0]).(int32)) },
+		// ---- errors.Is / errors.As (the std versions use reflection)
+		"errors.Is": func(fr *frame, a []value) value {
+			return fr.i.errorsIs(fr, a[0], a[1])
+		},
+		"errors.As": func(fr *frame, a []value) value {
+			return fr.i.errorsAs(fr, a[0], a[1])
+		},
 		// ---- sync.WaitGroup
 		"(*sync.WaitGroup).Add": func(fr *frame, a []value) value {
 			fr.i.sched.yield()
@@ -473,9 +482,14 @@ func (i *interpreter) sprintArgs(args []value, ln bool) value {
 	return out
 }
 
+// ifaceVal returns the dynamic value; symbolic strings count as strings.
 func ifaceVal(v value) value {
 	if f, ok := v.(iface); ok {
-		return f.v
+		v = f.v
+	}
+	switch v.(type) {
+	case sstr, decStr:
+		return ""
 	}
 	return v
 }
@@ -494,4 +508,100 @@ func (i *interpreter) writeTo(fr *frame, w value, s value) value {
 	f := i.prog.MethodValue(sel)
 	cells := append([]value(nil), strCells(s)...)
 	return call(i, fr, token.NoPos, f, []value{wi.v, cells})
+}
+
+func (i *interpreter) methodNamed(t types.Type, name string) *ssa.Function {
+	sel := i.prog.MethodSets.MethodSet(t).Lookup(nil, name)
+	if sel == nil {
+		return nil
+	}
+	return i.prog.MethodValue(sel)
+}
+
+// unwrapErr returns the errors err wraps (Unwrap() error or Unwrap() []error).
+func (i *interpreter) unwrapErr(fr *frame, e iface) []iface {
+	m := i.methodNamed(e.t, "Unwrap")
+	if m == nil || m.Signature.Params().Len() != 0 || m.Signature.Results().Len() != 1 {
+		return nil
+	}
+	r := call(i, fr, token.NoPos, m, []value{e.v})
+	switch r := r.(type) {
+	case iface:
+		if r.t == nil {
+			return nil
+		}
+		return []iface{r}
+	case []value:
+		var out []iface
+		for _, x := range r {
+			if f, ok := x.(iface); ok && f.t != nil {
+				out = append(out, f)
+			}
+		}
+		return out
+	}
+	return nil
+}
+
+func (i *interpreter) errorsIs(fr *frame, errv, targetv value) value {
+	err, target := errv.(iface), targetv.(iface)
+	if err.t == nil || target.t == nil {
+		return err.t == nil && target.t == nil
+	}
+	comparable := types.Comparable(target.t)
+	var walk func(e iface) bool
+	walk = func(e iface) bool {
+		if comparable && types.Identical(e.t, target.t) && equals(e.t, e.v, target.v) {
+			return true
+		}
+		if m := i.methodNamed(e.t, "Is"); m != nil && m.Signature.Params().Len() == 1 && m.Signature.Results().Len() == 1 {
+			if i.decide(call(i, fr, token.NoPos, m, []value{e.v, target})) {
+				return true
+			}
+		}
+		for _, u := range i.unwrapErr(fr, e) {
+			if walk(u) {
+				return true
+			}
+		}
+		return false
+	}
+	return walk(err)
+}
+
+func (i *interpreter) errorsAs(fr *frame, errv, targetv value) value {
+	err, target := errv.(iface), targetv.(iface)
+	if err.t == nil {
+		return false
+	}
+	pt, ok := target.t.Underlying().(*types.Pointer)
+	if target.t == nil || !ok || target.v == nil {
+		panic(targetPanic{"errors: target must be a non-nil pointer"})
+	}
+	elem := pt.Elem()
+	_, isIface := elem.Underlying().(*types.Interface)
+	cell := target.v.(*value)
+	var walk func(e iface) bool
+	walk = func(e iface) bool {
+		if types.AssignableTo(e.t, elem) {
+			if isIface {
+				*cell = e
+			} else {
+				*cell = e.v
+			}
+			return true
+		}
+		if m := i.methodNamed(e.t, "As"); m != nil && m.Signature.Params().Len() == 1 && m.Signature.Results().Len() == 1 {
+			if i.decide(call(i, fr, token.NoPos, m, []value{e.v, target})) {
+				return true
+			}
+		}
+		for _, u := range i.unwrapErr(fr, e) {
+			if walk(u) {
+				return true
+			}
+		}
+		return false
+	}
+	return walk(err)
 }
